@@ -507,9 +507,45 @@ func (e *Engine) ResolveType(s string) (types.Type, error) {
 	}
 	tv, err := types.Eval(e.Fset, e.cur.Pkg, e.cur.Decl.Body.Lbrace, s)
 	if err != nil {
+		// a type of a package the function's file does not import (a callee's frame
+		// names it): look the package up among the transitive imports
+		if t := e.resolveImported(strings.TrimPrefix(s, "*")); t != nil {
+			if strings.HasPrefix(s, "*") {
+				return types.NewPointer(t), nil
+			}
+			return t, nil
+		}
 		return nil, err
 	}
 	return tv.Type, nil
+}
+
+func (e *Engine) resolveImported(s string) types.Type {
+	i := strings.Index(s, ".")
+	if i <= 0 || strings.ContainsAny(s, "[]() ") {
+		return nil
+	}
+	pkgName, name := s[:i], s[i+1:]
+	seen := map[*types.Package]bool{}
+	var find func(p *types.Package) types.Type
+	find = func(p *types.Package) types.Type {
+		if p == nil || seen[p] {
+			return nil
+		}
+		seen[p] = true
+		if p.Name() == pkgName {
+			if tn, ok := p.Scope().Lookup(name).(*types.TypeName); ok {
+				return tn.Type()
+			}
+		}
+		for _, q := range p.Imports() {
+			if t := find(q); t != nil {
+				return t
+			}
+		}
+		return nil
+	}
+	return find(e.cur.Pkg)
 }
 
 func registerBuiltinSpecs(e *Engine) {
@@ -802,6 +838,36 @@ func registerBuiltinSpecs(e *Engine) {
 			return Val{}, err
 		}
 		return Val{smt.App(smt.V, "s_app", s.T, Box(v.T)), s.Ty}, nil
+	}
+	// castp(x, T): the interface value x viewed as a *T of the contract's package
+	// (interface values and the pointers they hold are the same term; only the
+	// static type used to resolve field names changes). No dynamic-type claim is made.
+	e.Specs["castp"] = func(e *Engine, env *SpecEnv, args []spec.Expr) (Val, error) {
+		if len(args) != 2 {
+			return Val{}, fmt.Errorf("spec: castp(x, T)")
+		}
+		id, ok := args[1].(*spec.Ident)
+		if !ok {
+			return Val{}, fmt.Errorf("spec: castp(x, T): T must be a type name")
+		}
+		v, err := e.evalSpec(env, args[0])
+		if err != nil {
+			return Val{}, err
+		}
+		var pkgs []*types.Package
+		if e.cur != nil && e.cur.Pkg != nil {
+			pkgs = append(pkgs, e.cur.Pkg)
+			pkgs = append(pkgs, e.cur.Pkg.Imports()...)
+		}
+		for _, pk := range pkgs {
+			if pk.Name() != env.Pkg {
+				continue
+			}
+			if tn, ok := pk.Scope().Lookup(id.Name).(*types.TypeName); ok {
+				return Val{v.T, types.NewPointer(tn.Type())}, nil
+			}
+		}
+		return Val{}, fmt.Errorf("spec: castp: no type %s in package %s", id.Name, env.Pkg)
 	}
 	e.Specs["ite"] = func(e *Engine, env *SpecEnv, args []spec.Expr) (Val, error) {
 		c, err := e.evalSpec(env, args[0])
